@@ -585,6 +585,11 @@ func (st *State) strLen(s *Term) *Term {
 		return IntLit(int64(len(l)))
 	}
 	f := st.declareFun("str_len", []Sort{SStr}, SInt)
+	if !st.declared["axiom:str_len_nonneg"] {
+		st.declared["axiom:str_len_nonneg"] = true
+		x := Const("s!qlen", SStr)
+		st.assume(Forall([]*Term{x}, Ge(App(SInt, f, x), IntLit(0)), App(SInt, f, x)))
+	}
 	return App(SInt, f, s)
 }
 
